@@ -687,6 +687,9 @@ def main(prop, tier, seed):
         cases = load_cases(run, tier, seed)
         if prop == "C09" and not run.machinery_errors:
             run_formeval(run, tier)
+            # which definition a name denotes, in definitions, modifier arguments and formula calls (spec/Names.tla)
+            from engines import names
+            names.check(run, tier, seed, engine="algebra")
         if prop == "C07" and not run.machinery_errors:
             from engines import forms
             forms.run_forms(run, "derivs")
